@@ -45,6 +45,7 @@ static void pad_case(size_t len, size_t bs, size_t cap, int use_p, int pat)
     if (r != want) { vf_fail(key, "returned %d, model says %d (padded=%zu)", r, want, padded); return; }
     if (r != 0) {
         if (memcmp(work, orig, need) != 0) vf_fail(key, "buffer modified although the call failed");
+        if (use_p && got != 0xdeadbeef) vf_fail(key, "the padded-length variable was written (%zu) although the call failed", got);
         return;
     }
     if (use_p && got != padded) vf_fail(key, "reported padded length %zu, want %zu", got, padded);
